@@ -37,7 +37,7 @@ theorem Ext.trans {a b c : St} (h1 : Ext a b) (h2 : Ext b c) : Ext a c := by
   · exact hf2 s h
 
 theorem lookup_cons_self {β} (k : Key) (b : β) (l : List (Key × β)) :
-    List.lookup k ((k, b) :: l) = some b := by simp [List.lookup_cons]
+    List.lookup k ((k, b) :: l) = some b := by simp
 
 theorem lookup_cons_ne {β} (k k' : Key) (b : β) (l : List (Key × β)) (h : k ≠ k') :
     List.lookup k ((k', b) :: l) = List.lookup k l := by
